@@ -847,6 +847,132 @@ def inspect_getattr_static(tp: Any, name: str) -> Any:
 
 
 # ---------------------------------------------------------------------------
+# sequences of id validations in one process (the id type is one Union object shared by all envelope classes)
+# ---------------------------------------------------------------------------
+UNION_IDS = ["abc", "7", 5, 3.0, 3.5, -0.0, 1e3, True, False]
+UNION_VIAS = ["parse_message(request)", "JSONRPCRequest.model_validate", "JSONRPCResponse.model_validate", "create_error_response"]
+
+
+def _union_call(vi: int, ii: int) -> Dict[str, Any]:
+    from chuk_mcp.protocol.messages import json_rpc_message as J
+
+    i = UNION_IDS[ii]
+    via = UNION_VIAS[vi]
+    try:
+        if via == "parse_message(request)":
+            m = J.parse_message({"jsonrpc": "2.0", "id": i, "method": "ping"})
+        elif via == "JSONRPCRequest.model_validate":
+            m = J.JSONRPCRequest.model_validate({"jsonrpc": "2.0", "id": i, "method": "ping"})
+        elif via == "JSONRPCResponse.model_validate":
+            m = J.JSONRPCResponse.model_validate({"jsonrpc": "2.0", "id": i, "result": {}})
+        else:
+            m = J.create_error_response(i, -32601, "m")
+        return {"ok": True, "id": enc(m.model_dump(exclude_none=True).get("id")), "type": type(m).__name__}
+    except Exception as e:  # noqa: BLE001
+        return {"ok": False, "exc": type(e).__name__}
+
+
+def op_unionseq(case: Dict[str, Any]) -> Any:
+    from .encseq import in_fork
+
+    cls_of("chuk_mcp.protocol.messages.json_rpc_message:JSONRPCRequest")       # everything imported before the fork
+    try:
+        return in_fork(lambda: [_union_call(vi, ii) for vi, ii in case["calls"]])
+    except Exception as e:  # noqa: BLE001
+        return [{"ok": False, "exc": "fork:" + type(e).__name__}]
+
+
+# ---------------------------------------------------------------------------
+# one model instance at two positions of a non-cyclic payload
+# ---------------------------------------------------------------------------
+def op_shared(case: Dict[str, Any]) -> Dict[str, Any]:
+    """Build the object, then (1) append the first item of every declared list of models to that list once more (the same
+    instance twice among siblings) and (2) wherever two instances of one class with equal dumps sit at different positions
+    (siblings, parent and child, two members), put the first one in the place of the second.  The dump afterwards must be
+    the dump before with the duplicated list items added - sharing an instance does not change the JSON value."""
+    import json as _json
+
+    try:
+        x = _build(case["target"], dec(case["wire"]))
+    except Exception as e:  # noqa: BLE001
+        return {"ok": False, **exc_facts(e)}
+    if isinstance(x, list) or not is_instance(x):
+        return {"ok": True, "shares": 0, "problem": None}
+    try:
+        expected = to_plain(x.model_dump(by_alias=True, exclude_none=True))
+    except Exception as e:  # noqa: BLE001
+        return {"ok": True, "shares": 0, "problem": None, "dump_exc": exc_facts(e)}
+    shares = 0
+    holders: List[Any] = []                      # (container, key, instance, wire-name path)
+
+    def walk(obj, path, exp):
+        nonlocal shares
+        if not is_instance(obj):
+            return
+        names = {f.name: f.wire for f in wiregen.fields(type(obj))}
+        for k, v in list(members(obj).items()):
+            if k not in names:
+                continue
+            wk = names[k]
+            if is_instance(v):
+                holders.append((obj, k, v, path + (wk,)))
+                walk(v, path + (wk,), exp.get(wk, {}) if isinstance(exp, dict) else {})
+            elif isinstance(v, list) and v and all(is_instance(i) for i in v):
+                sub = exp.get(wk) if isinstance(exp, dict) else None
+                for i, item in enumerate(v):
+                    holders.append((v, i, item, path + (wk, i)))
+                    walk(item, path + (wk, i), sub[i] if isinstance(sub, list) and i < len(sub) else {})
+                v.append(v[0])                                  # the same instance twice among siblings
+                if isinstance(sub, list) and sub:
+                    sub.append(_json.loads(_json.dumps(sub[0])))
+                shares += 1
+
+    walk(x, (), expected)
+    dumps_ = {}
+    for (_, _, inst, path) in holders:
+        try:
+            dumps_[id(inst)] = workers_line(to_plain(inst.model_dump(by_alias=True, exclude_none=True)))
+        except Exception:  # noqa: BLE001
+            dumps_[id(inst)] = None
+    first_of: Dict[Any, Any] = {}
+    for (cont, key, inst, path) in holders:
+        k = (type(inst), dumps_.get(id(inst)))
+        if k[1] is None:
+            continue
+        if k in first_of and first_of[k] is not inst:
+            try:
+                if isinstance(cont, list):
+                    cont[key] = first_of[k]
+                else:
+                    object.__setattr__(cont, key, first_of[k]) if key not in getattr(cont, "__dict__", {}) else \
+                        cont.__dict__.__setitem__(key, first_of[k])
+                shares += 1
+            except Exception:  # noqa: BLE001
+                pass
+        else:
+            first_of.setdefault(k, inst)
+    problem = None
+    for via, f in (("model_dump", lambda: to_plain(x.model_dump(by_alias=True, exclude_none=True))),
+                   ("model_dump_json", lambda: _json.loads(x.model_dump_json(by_alias=True, exclude_none=True)))):
+        try:
+            got = f()
+        except Exception as e:  # noqa: BLE001
+            problem = {"kind": "raised", "via": via, **exc_facts(e)}
+            break
+        where = first_json_diff(expected, got)
+        if where is not None:
+            problem = {"kind": "differs", "via": via, "path": _IDX.sub("[]", where)}
+            break
+    return {"ok": True, "shares": shares, "problem": problem}
+
+
+def workers_line(v: Any) -> str:
+    import json as _json
+
+    return _json.dumps(v, sort_keys=True, default=repr)
+
+
+# ---------------------------------------------------------------------------
 # equality of model objects (C09): ==, !=, membership, hash
 # ---------------------------------------------------------------------------
 def op_eqprobe(case: Dict[str, Any]) -> Dict[str, Any]:
@@ -982,6 +1108,10 @@ def child_handle(case: Any) -> Any:
         return op_methods(case)
     if op == "eqprobe":
         return op_eqprobe(case)
+    if op == "shared":
+        return op_shared(case)
+    if op == "unionseq":
+        return op_unionseq(case)
     if op == "helper":
         return op_helper(case)
     if op == "helpers":
